@@ -445,6 +445,11 @@ func c05pool(c *Ctx) {
 					}
 				}
 			}
+			for _, e := range p.All(px.KindIs(px.EvStore)) {
+				if px.FieldAddrIs(e.Addr, "created", nil) {
+					return false, "Put changes the number of created resources: returning something (or nothing) must never raise the capacity — an unmatched Put(nil) would hand out a resource beyond the limit"
+				}
+			}
 			if xsym != nil && p.Abs(xsym).K == px.Nil {
 				return true, ""
 			}
@@ -468,7 +473,39 @@ func c05pool(c *Ctx) {
 			return true, ""
 		})
 	}
-	c.R.Min(rule, 2, "Get, Put")
+	// who may change the count: Get (and the constructor) only
+	{
+		var bad []string
+		n := 0
+		for _, pk := range c.P.Pkgs {
+			rel := strings.TrimPrefix(pk.PkgPath, mod)
+			for _, g := range c.P.AllFuncs(rel) {
+				for _, b := range g.Blocks {
+					for _, ins := range b.Instrs {
+						st, ok := ins.(*ssa.Store)
+						if !ok {
+							continue
+						}
+						fa, ok := st.Addr.(*ssa.FieldAddr)
+						if !ok || fieldNameOf(fa) != "created" || !strings.HasSuffix(typeString(fa.X.Type()), pkg+".Pool") {
+							continue
+						}
+						n++
+						root := g
+						for root.Parent() != nil {
+							root = root.Parent()
+						}
+						if rel != pkg || (root.Name() != "Get" && root.Name() != "NewPool") {
+							bad = append(bad, c.P.Pos(st.Pos())+": "+funcDisplay(g)+" writes Pool.created")
+						}
+					}
+				}
+			}
+		}
+		sort.Strings(bad)
+		c.R.Check(len(bad) == 0 && n >= 2, rule, "core/syncx.Pool.created#writers", "the count of created resources is changed only by Get (created++ with create, created-- with destroy)", "-", fmt.Sprintf("%d writes; %v", n, bad), bad, n)
+	}
+	c.R.Min(rule, 3, "Get, Put, writers of created")
 	c.R.Min(rule+"a", 2, "lock guard Get, Put")
 }
 
@@ -669,8 +706,46 @@ func c05workers(c *Ctx) {
 	for _, pkg := range []string{"core/mr", "core/fx"} {
 		workersClamp(c, "C05.R6", pkg)
 	}
+	// the gate in front of the bounded walk: the unbounded variant is chosen only by the explicit option
+	if f := c.fn("C05.R6", "core/fx", "(Stream).Walk"); f != nil {
+		ps := c.paths("C05.R6", f, px.Config{})
+		unl := func(e *px.Event) bool { return e.Kind == px.EvCall && e.Call.Static != nil && e.Call.Static.Name() == "walkUnlimited" }
+		lim := func(e *px.Event) bool { return e.Kind == px.EvCall && e.Call.Static != nil && e.Call.Static.Name() == "walkLimited" }
+		c.forall("C05.R6", "core/fx.(Stream).Walk#gate", "the unbounded walk runs only when the unlimitedWorkers option was found set; every other path takes the walk bounded by the worker semaphore (no heuristic about the source decides that nothing needs throttling)", f, ps, func(p *px.Path) (bool, string) {
+			if p.Exit != px.ExitReturn {
+				return true, ""
+			}
+			set := false
+			for _, b := range p.All(px.KindIs(px.EvBranch)) {
+				if px.IsFieldLoad(b.Cond, "unlimitedWorkers", nil) && b.Taken {
+					set = true
+				}
+			}
+			if p.Has(unl) && !set {
+				return false, "the unbounded walk is chosen on a path where the unlimitedWorkers option was not found set: WithWorkers(n) no longer bounds the number of concurrent invocations (a full buffered source is not a finished one)"
+			}
+			if !p.Has(unl) && p.Count(lim) != 1 {
+				return false, "neither variant of the walk runs exactly once"
+			}
+			return true, ""
+		})
+		// and nobody else reaches the unbounded variant
+		callers, all := pkgCallers(c, "core/fx")
+		var bad []string
+		for _, g := range all {
+			if g.Name() == "walkUnlimited" {
+				for cl := range callers[g] {
+					if cl.Name() != "Walk" {
+						bad = append(bad, "walkUnlimited called from "+cl.Name())
+					}
+				}
+			}
+		}
+		sort.Strings(bad)
+		c.R.Check(len(bad) == 0, "C05.R6", "core/fx.(Stream).walkUnlimited#callers", "the unbounded walk is reached only through Walk's option gate", "-", strings.Join(bad, "; "), bad, 1)
+	}
 	c.R.Min("C05.R4", 6, "Schedule acquire/release, ScheduleImmediately acquire/release/busy, NewTaskRunner")
-	c.R.Min("C05.R6", 8, "executeMappers and walkLimited acquire/release/capacity, WithWorkers ×2")
+	c.R.Min("C05.R6", 10, "executeMappers and walkLimited acquire/release/capacity, WithWorkers ×2")
 }
 
 func isEmptyStruct(t types.Type) bool {
